@@ -29,11 +29,14 @@ ANCHOR = {
 }
 
 
-def corrupt_json(rng, fc):
+JSON_KINDS = ["truncate", "garbage", "drop", "rename", "type", "prob", "empty", "payoff", "actions", "recall", "chance",
+              "singles", "single-multi", "forgot", "chance-fine"]
+
+
+def corrupt_json(rng, fc, kind=None):
     """returns (text, category) for a corrupted JSON game"""
     obj = json.loads(fc.text)
-    kind = rng.choice(["truncate", "garbage", "drop", "rename", "type", "prob", "empty", "payoff", "actions", "recall", "chance",
-                       "singles", "single-multi"])
+    kind = kind or rng.choice(JSON_KINDS)
 
     def nodes(o, acc):
         acc.append(o)
@@ -134,6 +137,33 @@ def corrupt_json(rng, fc):
         n.clear()
         n.update(new)
         return json.dumps(obj), "game"
+    if kind == "forgot":
+        # a player reaches one infoset after two different actions of an earlier infoset of theirs (forgets the action)
+        n = rng.choice(ns)
+        keep = json.loads(json.dumps(n))
+        pl1 = rng.choice([True, False])
+
+        def y(a, b):
+            return {"player": {"player_one": pl1, "infoset": "forgetful_y", "actions": {"u": {"terminal": a}, "v": {"terminal": b}}}}
+        new = {"player": {"player_one": pl1, "infoset": "forgetful_x", "actions": {"a": y(0.0, 2.0), "b": y(2.0, 0.0), "c": keep}}}
+        n.clear()
+        n.update(new)
+        return json.dumps(obj), "game"
+    if kind == "chance-fine":
+        # the same chance infoset with probabilities that differ by a hair (far above rounding, far below a percent)
+        c2 = [n for n in ch if len(n["chance"]["outcomes"]) >= 2]
+        if not c2:
+            return None
+        n = rng.choice(c2)
+        twin = json.loads(json.dumps(n))
+        n["chance"]["infoset"] = "shared_fine"
+        twin["chance"]["infoset"] = "shared_fine"
+        v = twin["chance"]["outcomes"][sorted(twin["chance"]["outcomes"])[0]]
+        v["prob"] = v["prob"] * (1.0 + rng.choice([1e-10, 3e-12, 1e-10, 1e-7]))
+        new = {"player": {"player_one": True, "infoset": "fresh_root_fine", "actions": {"l": json.loads(json.dumps(n)), "r": twin}}}
+        n.clear()
+        n.update(new)
+        return json.dumps(obj), "game"
     if kind == "recall":
         # a player moves twice in one infoset along a path (absent-mindedness)
         multi = [n for n in pl if len(n["player"]["actions"]) >= 2]
@@ -160,6 +190,25 @@ def corrupt_json(rng, fc):
         n.update(new)
         return json.dumps(obj), "game"
     return None
+
+
+def _restore_cited(g, table):
+    """after a terminal was replaced, an outcome that other nodes cite by number may have lost its only definition:
+    write the payoffs at the first citing node again (otherwise the *parser* rejects the file, which is not the
+    defect under test)"""
+    defined = set(cli.fg_outcomes(g))
+
+    def go(n):
+        if n[0] == "t":
+            return n
+        oid, p = n[-2], n[-1]
+        if oid != 0 and p is None and oid not in defined:
+            p = table[oid]
+            defined.add(oid)
+        if n[0] == "c":
+            return ("c", n[1], [(a, pr, go(c)) for a, pr, c in n[2]], oid, p)
+        return ("p", n[1], n[2], n[3], [(a, go(c)) for a, c in n[4]], oid, p)
+    return go(g)
 
 
 def gambit_variants(rng, cid):
@@ -248,7 +297,7 @@ def gambit_variants(rng, cid):
             if n[0] == "c":
                 return ("c", n[1], [(a, pr, rebuild(c)) for a, pr, c in n[2]], n[3], n[4])
             return ("p", n[1], n[2], n[3], [(a, rebuild(c)) for a, c in n[4]], n[5], n[6])
-        fc.fg_variant = rebuild(fg)
+        fc.fg_variant = _restore_cited(rebuild(fg), cli.fg_outcomes(fg))
         text = cli.efg_text(fc.fg_variant, rng=rng)
         return fc, text, {"sum-out": "constant-sum", "sum-in": None, "huge": "non-finite"}[kind], kind
     if kind in ("numclash", "dupname", "sharedname", "contract"):
@@ -283,11 +332,20 @@ def run(out, rng, tier, args):
     cid = 0
     done = 0
     model_jobs = []      # (cid, coq expression, expected category, what the binary did)
+    json_turn = rng.randrange(len(JSON_KINDS))
     while done < n:
         cid += 1
         if rng.random() < 0.5:
             fc = cc.gen_file_case(cid, rng, fmt="json")
-            r = corrupt_json(rng, fc)
+            # every kind of corruption gets its turn (a random choice leaves some kinds out of a short run)
+            want = JSON_KINDS[json_turn % len(JSON_KINDS)]
+            r = None
+            for _ in range(6):
+                r = corrupt_json(rng, fc, want)
+                if r is not None:
+                    break
+                fc = cc.gen_file_case(cid, rng, fmt="json")
+            json_turn += 1
             if r is None:
                 continue
             text, cat = r
